@@ -135,7 +135,7 @@ def decode_one_right(text: bytes, pos: int) -> tuple[int, int] | None:
             o, _next_pos = decode_one(text, p)
             return o, p - 1
         p -= 1
-        if p == p - 4:
+        if p == pos - 4:
             return error
     return None
 
